@@ -108,7 +108,10 @@ def main():
             if not own.get('detected'):
                 missed.append(i)
     sh('git -C /repo worktree prune')
-    shutil.rmtree(ROOT, ignore_errors=True)
+    try:
+        os.rmdir(ROOT)        # only when empty: other mutants.py runs may be working under it
+    except OSError:
+        pass
     print('missed:', missed)
 
 
